@@ -130,7 +130,7 @@ def _run(ctx, w):
     pnames = [p.get("name") for p in hb["params"]]
     for r in range(8):
         it = Aff(w.facts, r, 8)
-        env = {pnames[0]: ("obj", tabs_ty, {}), pnames[1]: ("aff", 0), pnames[2]: ("sym", "end")}
+        env = {pnames[0]: ("obj", tabs_ty, {f["name"]: ("sym", "stops") for f in w.facts.struct_fields(tabs_ty) or []}), pnames[1]: ("aff", 0), pnames[2]: ("sym", "end")}
         got = None
         try:
             try:
@@ -302,6 +302,28 @@ def _run(ctx, w):
         if not seen:
             ctx.missing_anchor("Z6", "tab search with fallback for Function::%s" % v)
     ctx.floor("Z6", 5, "tab guards")
+    # ---- Z9: which tab operation each CTC / TBC selector performs, and the count of CHT / CBT ----
+    ctx.rule("Z9", "CTC 0 / HTS set a stop at the cursor column, CTC 2 / TBC 0 clear the stop at the cursor column only, CTC 5 / TBC 3 clear all stops (decision table of the handlers, tab table opaque)")
+    from rules import hinterp
+    clearer = [fn for fn, fo in fns.items() if len(fo["inputs"]) == 1 and fo["inputs"][0].get("ref") == "mut" and any(cs.callee.endswith("::clear") for cs in E.call_sites(fn))]
+    want = {("Ctc", "parser::CtcOp::Set"): ("set", setter), ("Ctc", "parser::CtcOp::ClearCurrentColumn"): ("unset", unsetter), ("Ctc", "parser::CtcOp::ClearAll"): ("clear", clearer[0] if len(clearer) == 1 else None),
+            ("Tbc", "parser::TbcScope::CurrentColumn"): ("unset", unsetter), ("Tbc", "parser::TbcScope::All"): ("clear", clearer[0] if len(clearer) == 1 else None)}
+    for (v, sel), (kind, fn_want) in sorted(want.items()):
+        for h in w.handler(v):
+            try:
+                ev, me = hinterp.run_handler(w, S, R, h, [("v", sel)], 10, 3, 3, 1, opaque_tabs=True)
+            except Exception as ex:
+                ctx.violation("Z9", "%s:%s" % (v, sel.rsplit("::", 1)[1]), "cannot evaluate %s for %s: %s" % (h, sel, ex), loc=w.fn_loc(h))
+                continue
+            te = [(e[0], e[1]) for e in ev if e[2] == "tabs"]
+            exp = [(fn_want, [3])] if kind in ("set", "unset") else [(fn_want, [])]
+            ctx.check(fn_want is not None and te == exp, "Z9", "%s:%s" % (v, sel.rsplit("::", 1)[1]),
+                      "%s with %s performs %s on the tab table; expected %s%s" % (h, sel, te, fn_want, " at the cursor column" if kind != "clear" else ""), loc=w.fn_loc(h),
+                      sample={"selector": sel, "operations": [t[0] for t in te]})
+    ctx.floor("Z9", 5, "tab selectors")
+    shared.count_passthrough(ctx, w, S, R, "Z9c", ["Cht", "Cbt"])
+    # tabbing is a cursor command: it clears wrap-pending (leaves a real column) on every path
+    c05.wrap_pending_rule(ctx, w, S, R)
     ctx.rule("Z7", "HTS/CTC/TBC write only the tab stops")
     for v in ("Hts", "Ctc", "Tbc"):
         shared.frame(ctx, w, "Z7", v, [(tabs_f,)], "setting/clearing tab stops changes nothing else")
